@@ -369,6 +369,13 @@ class FnRewriter:
                         k += 1
                 j = k
                 continue
+            # R3: statement `X.for_each(|PAT| BODY)`  ==>  `for PAT in X { BODY }`
+            if (in_body and 'R3' in rw and t.kind not in ('ws', 'comment')
+                    and self._stmt_start(j, lo)):
+                fe = self._match_for_each(j, hi)
+                if fe is not None:
+                    j = self._emit_for_each(j, fe, out, rw, pathmap, overlay_piece)
+                    continue
             if t.kind == 'ident':
                 mo = is_macro_call(toks, j)
                 if mo is not None and j + 1 < hi:
@@ -538,6 +545,121 @@ class FnRewriter:
                     continue
             out(t.text, j)
             j += 1
+
+    # ---- R3 helpers (for_each) ------------------------------------------
+    def _stmt_start(self, j, lo):
+        """toks[j] is the first token of a statement / tail expression."""
+        toks = self.sf.toks
+        k = j - 1
+        while k >= lo and toks[k].kind in ('ws', 'comment'):
+            k -= 1
+        if k < lo:
+            return True
+        return toks[k].kind == 'punct' and toks[k].text in '{;}'
+
+    def _match_for_each(self, j, hi):
+        """If the statement starting at toks[j] is exactly
+        `X.for_each(|PAT| BODY)` (optionally followed by `;`), return
+        (dot, pat_lo, pat_hi, body_lo, body_hi, close) token indices, else None."""
+        toks = self.sf.toks
+        t = toks[j]
+        if t.kind == 'ident' and t.text in ('if', 'match', 'loop', 'while', 'for', 'let', 'return',
+                                            'unsafe', 'break', 'continue', 'use', 'fn', 'else'):
+            return None
+        if not (t.kind == 'ident' or (t.kind == 'punct' and t.text in '(&*')):
+            return None
+        k = j
+        last = None
+        while k < hi:
+            tk = toks[k]
+            if tk.kind == 'punct' and tk.text in '([':
+                k = match_close(toks, k) + 1
+                continue
+            if tk.kind == 'punct' and tk.text in '{}':
+                break
+            if tk.kind == 'punct' and tk.text in ';)]':
+                break
+            if (tk.kind == 'punct' and tk.text == '.' and k + 1 < hi and toks[k + 1].kind == 'ident'
+                    and toks[k + 1].text == 'for_each'):
+                q = k + 2
+                while q < hi and toks[q].kind in ('ws', 'comment'):
+                    q += 1
+                if q < hi and toks[q].kind == 'punct' and toks[q].text == '(':
+                    last = (k, q)
+            k += 1
+        if last is None:
+            return None
+        dot, po = last
+        pc = match_close(toks, po)
+        # the call must end the statement
+        q = pc + 1
+        while q < hi and toks[q].kind in ('ws', 'comment'):
+            q += 1
+        if q < hi and not (toks[q].kind == 'punct' and toks[q].text in ';}'):
+            return None
+        # single closure argument |PAT| BODY
+        q = po + 1
+        while q < pc and toks[q].kind in ('ws', 'comment'):
+            q += 1
+        if not (toks[q].kind == 'punct' and toks[q].text == '|'):
+            return None
+        pat_lo = q + 1
+        k = pat_lo
+        depth = 0
+        while k < pc:
+            tk = toks[k]
+            if tk.kind == 'punct' and tk.text in '([<':
+                depth += 1
+            elif tk.kind == 'punct' and tk.text in ')]>':
+                depth -= 1
+            elif tk.kind == 'punct' and tk.text == ':' and depth <= 0:
+                return None      # typed closure parameter: not a `for` pattern
+            elif tk.kind == 'punct' and tk.text == ',' and depth <= 0:
+                return None      # more than one parameter
+            elif tk.kind == 'punct' and tk.text == '|' and depth <= 0:
+                break
+            k += 1
+        if k >= pc or k == pat_lo:
+            return None
+        pat_hi = k
+        body_lo = k + 1
+        body_hi = pc
+        # trailing comma of the argument list
+        q = pc - 1
+        while q > body_lo and toks[q].kind in ('ws', 'comment'):
+            q -= 1
+        if toks[q].kind == 'punct' and toks[q].text == ',':
+            body_hi = q
+        return dot, pat_lo, pat_hi, body_lo, body_hi, pc
+
+    def _emit_for_each(self, j, fe, out, rw, pathmap, overlay_piece):
+        toks = self.sf.toks
+        dot, pat_lo, pat_hi, body_lo, body_hi, pc = fe
+        self._loop_no += 1
+        n = self._loop_no
+        pat = ' '.join(''.join(x.text for x in toks[pat_lo:pat_hi] if x.kind != 'comment').split())
+        self.log.append({'rule': 'R3', 'fn': self.fnkey, 'line': self.sf.line_of(toks[j].start),
+                         'what': '%s.for_each(|%s| ..) rewritten to `for %s in %s { .. }`' % (
+                             ''.join(x.text for x in toks[j:dot]).strip(), pat, pat,
+                             ''.join(x.text for x in toks[j:dot]).strip())})
+        if overlay_piece and n in self.ov['beforeloop']:
+            text, line = self.ov['beforeloop'][n]
+            overlay_piece(text, line, 'beforeloop%d' % n)
+        out('for %s in ' % pat, j)
+        if n in self.ov.get('loopvar', {}):
+            out('%s: ' % self.ov['loopvar'][n], j)
+        self._emit_range(j, dot, out, rw, pathmap, True, overlay_piece)
+        out(_nl(''.join(x.text for x in toks[dot:body_lo])), dot)
+        if overlay_piece and n in self.ov['loops']:
+            text, line = self.ov['loops'][n]
+            overlay_piece('\n' + text, line - 1, 'loop%d' % n)
+        out(' {', body_lo)
+        if overlay_piece and n in self.ov['loopentry']:
+            text, line = self.ov['loopentry'][n]
+            overlay_piece('\n' + text, line - 1, 'loopentry%d' % n)
+        self._emit_range(body_lo, body_hi, out, rw, pathmap, True, overlay_piece)
+        out(' }' + _nl(''.join(x.text for x in toks[body_hi:pc + 1])), pc)
+        return pc + 1
 
     def _for_mut_iter(self, j, b):
         """`for PAT in &mut IDENT {` -> (PAT text, IDENT) else None."""
